@@ -3,7 +3,7 @@
 usage: run_refactors.py <glob of patch files or dirs>..."""
 import json, os, subprocess, sys, tempfile, shutil, glob
 from concurrent.futures import ThreadPoolExecutor
-pats = sys.argv[1:] or ["/tmp/wt2/R*/out/r*/patch.diff", "/verif/refactors/*/patch.diff"]
+pats = sys.argv[1:] or ["/verif/refactors/*/patch.diff"]
 files = sorted(f for p in pats for f in glob.glob(p))
 def one(pf):
     tmp = tempfile.mkdtemp(prefix="refac-")
